@@ -1,4 +1,16 @@
 """C16 — stack locals are disjoint and inside the declared frame."""
+import json
+
+
+def floors(ctx, name, spec):
+    """Lower bounds on the number of JUDGED cases: a change that silently makes a class of cases drop out
+    (every context refused, the package-level route failing, …) must not pass."""
+    st = ctx.coverage.get("input_distribution", {}).get(name)
+    if st is None:
+        return
+    for key, lo in spec.items():
+        if st.get(key, 0) < lo:
+            ctx.obligation_failures.append((f"{name}: sample floor", f"{key} = {st.get(key, 0)} < {lo} (stats: {json.dumps(st, sort_keys=True)[:2000]})"))
 
 
 def run(ctx):
@@ -19,18 +31,44 @@ def run(ctx):
     cpu = 150 if quick else 6000
     ctx.differential("c16", n, extra=["-cpu", str(cpu), "-cpudir", "cpu"],
                      nontrivial=lambda req, resp: " a" in req or req.startswith("accept-cpu"))
+    k = n // 10000
+    # about a third of what seeds 1..12 give for n = 10000
+    floors(ctx, "c16", {
+        "judged_functions": 4000 * k, "in_scope": 3500 * k, "bp_clobbered": 800 * k, "forced_local": 100 * k,
+        "bp_write_requested": 800 * k, "size_zero": 500 * k, "size_unaligned": 2000 * k, "frame_ge_2^31": 30 * k,
+        "multi_function_context_functions": 1500 * k, "package_level_route_functions": 1200 * k, "judged_with_args": 2500 * k,
+        "cpu_functions": cpu, "cpu_bp_clobbering": cpu // 4, "cpu_locals": cpu,
+    })
     ctx.coverage["rule"] = (
-        "random interleavings of Context.AllocLocal (sizes 0, 1..7, aligned, up to 2^31, a few negative = out of scope) "
-        "with instruction emission (stores/loads on locals, physical and virtual registers, writes to RBP/EBP/BP/BPB), "
-        "NOSPLIT/NOFRAME, 0..24 argument bytes, through build.Context, pass.Compile and printer.NewGoAsm: exact comparison "
-        "of returned offsets, Mem.Asm, FrameBytes and the TEXT size with the Lean model, plus an acceptor stating the "
-        "property (inside frame, pairwise disjoint, off the BP save slot, `$frame` reads back as FrameBytes) on the "
-        "implementation's own regions; measured: generated functions store a distinct pattern into every local, read all "
-        "of them back and are executed (go build + run), the caller's BP compared before/after; non-trivial = at least one allocation")
+        "random interleavings of AllocLocal (sizes 0, 1..7, aligned, up to 2^31 — totals reach beyond 2^31 —, a few negative = out of "
+        "scope) with instruction emission (stores/loads on locals, physical and virtual registers, writes to RBP/EBP/BP/BPB), "
+        "NOSPLIT/NOFRAME, 0..24 argument bytes; routes: methods of a fresh build.Context, or the package-level functions of package "
+        "build (build.Function/Attributes/SignatureExpr/AllocLocal/MOVQ… on a swapped-in global context); one function per context or "
+        "2-4 functions per context compiled and printed as ONE file; then pass.Compile and printer.NewGoAsm: exact comparison of "
+        "returned offsets, Mem.Asm, FrameBytes and the TEXT size with the Lean model, plus an acceptor stating the property (inside "
+        "frame, pairwise disjoint, off the BP save slot, `$frame` reads back as FrameBytes, and — with the assembler's int32 reading "
+        "of `$frame` — inside the frame that is really allocated) on the implementation's own regions; `accept-bpwrite`: where the "
+        "generator emitted a write to a BP view the compiled function still writes BP; measured: generated functions store a "
+        "distinct pattern into every local, read all of them back and are executed (go build + run, frames up to 20000 bytes), the "
+        "caller's BP compared before/after; non-trivial = at least one allocation. Lower bounds on the judged cases of every stream "
+        "are obligations (sample floors)")
+    ctx.coverage["exact_comparison_scope"] = (
+        "the `locals` line compares offsets, frame and text EXACTLY with the model of avo's bump allocation; the property itself does "
+        "not pin the allocation policy down: a policy change that keeps the property (aligning locals, always reserving the BP local, "
+        "printing `0(SP)`) is reported as 'correspondence broken' (no-failing-input-found) although `accept-locals` stays satisfied")
     ctx.assumptions += [
         "Go int arithmetic does not overflow (frames stay below 2^63)",
+        "total frame < 2^31 (explicit hypothesis of asm_text_frame / locals_in_text_frame, NOT granted by the property's quantifier): "
+        "the assembler truncates `$frame` to int32 (negative -> no frame); avo accepts such frames silently and the property fails "
+        "there — theorem text_frame_wraps, finding C16-frame-int32 (witness AllocLocal(1<<31)); frames within 16 bytes below 2^31 "
+        "make the assembler fail loudly (nothing is emitted)",
         "an unnamed displacement off(SP) addresses the hardware stack pointer, the declared frame is [0,frame) above it "
-        "and the assembler saves BP directly above the frame (cmd/internal/obj/x86/obj6.go); measured by the CPU part",
+        "and the assembler saves BP directly above the frame (cmd/internal/obj/x86/obj6.go; bpSlot is a modelling assumption: the "
+        "'off the BP slot' clause follows from 'inside the frame'); measured by the CPU part for frames up to 20000 bytes only",
         "negative sizes are outside the property's quantifier (generated, counted, not judged)",
+        "the model's 'BP is written' input is the generator's request (checked against the compiled code by accept-bpwrite) or, when "
+        "nothing was requested, the harness's own scan of the compiled output registers (hardware GP number 5)",
     ]
     ctx.trusted.append("the host CPU and the Go toolchain (go build) for the measured read-back part")
+    ctx.trusted.append("the int32 reading of the TEXT frame (Model/BP autoffset) is a hand-written model of cmd/internal/obj/x86/obj6.go, "
+                       "MEASURED by C15's Oracle/AsmBP grid (frames 2^31 and 2^32+8) and by go tool asm + objdump")
